@@ -414,3 +414,42 @@ func c07Texts(es []Event) []string {
 	}
 	return r
 }
+
+// ---- free interleaving at synchronisation points (sync.Map operations, mutexes,
+// channel operations, boundary calls), preemption bound 1. Such schedules
+// cannot be forced on the real build: a counterexample found here is replayed
+// natively up to 400 times and, if it does not show, makes the run inconclusive
+// (exit 2) instead of being reported as a violation.
+
+var c07FreePairs = [][2]int{{0, 0}, {0, 1}, {1, 0}, {3, 1}, {4, 1}, {6, 7}, {7, 6}, {9, 10}, {10, 9}, {9, 11}}
+
+func N_C07_Free(tier int) int {
+	if tier > 0 {
+		return len(c07FreePairs)
+	}
+	return 0
+}
+
+func H_C07_Free(shape int) {
+	pair := c07FreePairs[shape]
+	cs := c07Cases()
+	ca, cb := cs[pair[0]], cs[pair[1]]
+	verifrt.Tag(ca.name + "|" + cb.name)
+	c07ctl = &c07Ctl{}
+	wantA := c07Alone(ca, 11, false)
+	wantB := c07Alone(cb, 22, false)
+	verifrt.Preemptions(1)
+	verifrt.SyncMapPoints()
+	s := c07Store()
+	db := openReal(stubDialector{}, s, &gorm.Config{NamingStrategy: pauseNamer{}, NowFunc: c07Now})
+	var ra, rb interface{}
+	verifrt.Go(func() { ra = ca.run(db.WithContext(context.WithValue(context.Background(), ctxTagKey{}, 11))) })
+	verifrt.Go(func() { rb = cb.run(db.WithContext(context.WithValue(context.Background(), ctxTagKey{}, 22))) })
+	verifrt.WaitAll()
+	verifrt.Reach("joined")
+	c07Same(c07Events(s, 11), wantA.events, "a")
+	c07Same(c07Events(s, 22), wantB.events, "b")
+	verifrt.Assert(verifrt.SameValue(ra, wantA.result), "C07.result-differs:a")
+	verifrt.Assert(verifrt.SameValue(rb, wantB.result), "C07.result-differs:b")
+	verifrt.Assert(s.OpenTx() == 0, "C07.transaction-left-open")
+}
